@@ -17,12 +17,23 @@ def _dreye():
 @st.composite
 def cloud(draw, dmin=2, dmax=5, nonneg=False, allow_few=False):
     d = draw(st.integers(dmin, dmax))
-    kind = draw(st.sampled_from(["random", "random", "lattice", "few"] if allow_few else ["random", "random", "lattice"]))
+    kind = draw(st.sampled_from(["random", "random", "lattice", "few", "flat"] if allow_few else ["random", "random", "lattice"]))
     if kind == "few":
         k = draw(st.integers(2, d))
     else:
         k = draw(st.integers(d + 1, d + 9))
     lo = 0.0 if nonneg else -5.0
+    if kind == "flat":
+        # more points than dimensions, all in an r-dimensional affine subspace (r < d), some of its extents thin (down to 1e-3
+        # of the largest) but unambiguous: convex combinations of r + 1 anchors v0 + t_j u_j
+        r = draw(st.integers(1, d - 1))
+        v0 = np.asarray(draw(gens.array((d,), 0.5, 3.0, styles=("raw",))))
+        U = np.asarray(draw(gens.array((r, d), 0.0, 2.0, styles=("raw", "sparse")))).reshape(r, d) + np.eye(d)[:r] * 0.5
+        t = np.asarray([draw(st.sampled_from([1.0, 1.0, 1e-1, 1e-2, 1e-3])) for _ in range(r)])
+        V = np.vstack([v0, v0 + t[:, None] * U])
+        W = np.asarray(draw(gens.array((k, r + 1), 0.0, 1.0, styles=("raw", "sparse")))).reshape(k, r + 1) + 1e-3
+        P = np.vstack([V, (W / W.sum(axis=1, keepdims=True)) @ V])
+        return dict(P=(P + 0.0).tolist(), kind=kind)
     if kind == "lattice":
         P = np.asarray(draw(gens.array((k + 4, d), 0.0, 3.0, styles=("int100",))), dtype=float).reshape(k + 4, d)
         if not nonneg:
@@ -313,7 +324,7 @@ def body_slice(case):
                   f"returned set misses part of the exact slice in direction {np.round(u, 3).tolist()}: support {got[j]:.9g} < {lower[j]:.9g}",
                   observed=dict(c=c, n_returned=int(Q.shape[0])))
     labs = [f"d{d}", case["kind"], case["mode"]] + ([] if lower is not None else ["no-row-clearly-beyond-the-plane:upper-envelope-only"])
-    if case["kind"] in ("lattice", "few") or case["mode"] in ("at-vertex", "tied-vertices"):
+    if case["kind"] in ("lattice", "few", "flat") or case["mode"] in ("at-vertex", "tied-vertices"):
         labs.append("nt:lattice-few-or-vertex")
     else:
         labs.append("nt:slice")
